@@ -50,8 +50,8 @@ def to_sympy(n, resolve, depth=0):
         if op == "*":
             return a * b
         if op == "/":
-            if (strip(c[0]) or {}).get("t") in ("int", "long", "size_t") and (strip(c[1]) or {}).get("t") in ("int", "long", "size_t"):
-                return sympy.floor(a / b)
+            if n.get("t") in ("int", "long", "size_t", "unsigned long", "unsigned int", "long long"):
+                return sympy.floor(a / b)       # integer division (the type of the division itself, explicit casts respected)
             return a / b
         if op in ("<", "<=", ">", ">=", "==", "!="):
             return {"<": sympy.Lt, "<=": sympy.Le, ">": sympy.Gt, ">=": sympy.Ge, "==": sympy.Eq, "!=": sympy.Ne}[op](a, b)
